@@ -334,7 +334,7 @@ func placeTimes(r *vf.Rand, s *scenario, st *streamScn, pks []pk, order []int64,
 func buildScenario(r *vf.Rand, idx int) *scenario {
 	s := &scenario{kind: kGeneral, num: 1, den: 1, quantum: 1}
 	switch {
-	case idx%1000 == 7:
+	case idx%2000 == 7:
 		s.kind = kDense
 	case r.Intn(100) < 12:
 		s.kind = kSilence
@@ -421,7 +421,7 @@ func buildScenario(r *vf.Rand, idx int) *scenario {
 			if r.Bool() {
 				d.base = uint32(-int64(r.Intn(d.n/12) * int(d.step)))
 			}
-			d.t0 = int64(r.Intn(2000000))*1000 + 500
+			d.t0 = s.pre + int64(r.Intn(2000000))*1000 + 500
 			s.dense = d
 			last = d.t0 + int64(d.n)*int64(d.gapUs)*1000 // upper bound; the driver reports the real end
 			continue
@@ -677,6 +677,23 @@ func run(c *vf.Case) {
 	s := buildScenario(c.R, c.Idx)
 	c.Add("cases_"+kindNames[s.kind], 1)
 
+	if c.Debug {
+		c.Logf("scenario: kind=%s useLatest=%v interval=%dns manualTicker=%v (%d ticks) injectedClock=%v (speed %d/%d resolution %dns epoch %v) T0=%dns end=%dns",
+			kindNames[s.kind], s.useLatest, s.ivNs, s.manual, len(s.ticks), s.injected, s.num, s.den, s.quantum, s.epoch.UTC(), s.pre, s.end)
+		for si, st := range s.streams {
+			c.Logf(" stream %d: ssrc=%d rate=%d shaped=%v bound at %dns, %d sends", si, st.ssrc, st.rate, st.shaped, st.bindAt, len(st.sends))
+			for i, sd := range st.sends {
+				if i >= 60 {
+					c.Logf("   …")
+					break
+				}
+				c.Logf("   send %d: at=%dns seq=%d (idx %d) ts=%d len=%d frame=%d foreign=%v", i, sd.at, uint16(sd.idx), sd.idx, sd.ts, sd.plen, sd.frame, sd.foreign)
+			}
+		}
+		if s.manual {
+			c.Logf(" manual ticks at %v", s.ticks)
+		}
+	}
 	var tl []event
 	tl = append(tl, event{at: s.pre, kind: evBindWriter})
 	for si, st := range s.streams {
@@ -701,7 +718,7 @@ func run(c *vf.Case) {
 	for i := range gates {
 		gates[i] = &rtpGate{}
 	}
-	tk := &manualTicker{ch: make(chan time.Time)}
+	tk := &manualTicker{}
 	var harnessErr string
 	var written int64
 
@@ -710,6 +727,7 @@ func run(c *vf.Case) {
 		w.bubbleStart = bubbleStart
 		mon.bubbleStartUnixNs = bubbleStart.UnixNano()
 		g0 := runtime.NumGoroutine()
+		tk.ch = make(chan time.Time) // must belong to the bubble, or waiting on it is not a durable block
 		var opts []report.SenderOption
 		if s.interval != 0 {
 			opts = append(opts, report.SenderInterval(s.interval))
@@ -765,7 +783,7 @@ func run(c *vf.Case) {
 			if sd.idx&1 == 0 {
 				attr = interceptor.Attributes{}
 			}
-			mon.onSend(si, sd, int64(time.Since(bubbleStart)), h.MarshalSize())
+			mon.onSend(si, sd, sd.at, h.MarshalSize()) // sleepTo has verified that the virtual clock reads sd.at
 			before := gates[si].calls
 			if _, err := writers[si].Write(h, zeros[:sd.plen], attr); err != nil {
 				harnessErr = "rtp write: " + err.Error()
@@ -808,13 +826,20 @@ func run(c *vf.Case) {
 			at := d.t0
 			frame, left := int32(0), r.Range(10, 20)
 			var recent [64]send
+			burst := 0
 			for i := 0; i < d.n; i++ {
-				if i > 0 {
-					at += int64(r.Intn(2*d.gapUs+1)) * 1000
+				if burst == 0 {
+					// packets leave in bursts sharing an instant (every sleep in a bubble costs
+					// a scheduler round trip; the history is what matters here, not its pacing)
+					burst = r.Range(300, 3000)
+					if i > 0 {
+						at += int64(r.Intn(2*d.gapUs*burst+1)) * 1000
+					}
+					if !sleepTo(at) {
+						break
+					}
 				}
-				if !sleepTo(at) {
-					break
-				}
+				burst--
 				if left == 0 {
 					frame++
 					left = r.Range(10, 20)
